@@ -409,7 +409,13 @@ class ExecFull(ExecPlaces):
         if spec.get("peel"):
             # first iteration executed as written (e.g. an accumulator that starts as None), the invariant
             # speaks about iterations >= 1; the contract must make the sequence non-empty
-            self.oblige("peel-nonempty", count >= 1, s, tag=f"#{k}")
+            if spec.get("peel") == "or-empty":
+                # the sequence may be empty: then the loop is skipped as a whole (its own path)
+                if self.p.decide(2) == 1:
+                    self.p.assume(count == 0)
+                    return
+            else:
+                self.oblige("peel-nonempty", count >= 1, s, tag=f"#{k}")
             self.p.assume(count >= 1)
             self.assign(s.target, elem_at(z3.IntVal(0)), fr, s)
             try:
